@@ -1132,8 +1132,10 @@ class Executor:
             r0 = args[0] if args else None
             while isinstance(r0, Ref):
                 r0 = r0.get()
-            if isinstance(r0, PyObj) and r0.name == c.typebase:
-                return r0.trait_call(self, c.typebase, c.method, args)
+            if isinstance(r0, PyObj) and (r0.name == c.typebase or getattr(r0, 'any_type', False)):
+                res = r0.trait_call(self, c.typebase, c.method, args)
+                if res is not NotImplemented:
+                    return res
             f = self.find_impl(None, c.typebase, c.method, args, c.typath)
             if f is not None:
                 return self.call_function(f, args)
